@@ -255,3 +255,60 @@ fn w_deflate_seq3() {
     deflate_call(&mut c, &mut t);
     deflate_call(&mut c, &mut t);
 }
+
+// ------------------------------------------------------------------------------------------
+// C01: compress_to_vec grow-and-retry loop over the contract stub.
+use miniz_oxide::deflate::{compress_to_vec, compress_to_vec_zlib};
+
+pub static mut KG: [u8; 16] = [0; 16];
+pub static mut KG_N: usize = 0;
+
+/// `compress_contract` that also writes fresh bytes (logged) into the part of the output it claims.
+pub fn compress_contract_writing(
+    d: &mut CompressorOxide,
+    in_buf: &[u8],
+    out_buf: &mut [u8],
+    flush: TDEFLFlush,
+) -> (TDEFLStatus, usize, usize) {
+    let r = compress_contract(d, in_buf, out_buf, flush);
+    unsafe {
+        let mut i = 0;
+        while i < r.2 {
+            let b: u8 = kani::any();
+            out_buf[i] = b;
+            kani::assume(KG_N < 12); // harness bound on the total compressed size
+            KG[KG_N] = b;
+            KG_N += 1;
+            i += 1;
+        }
+    }
+    r
+}
+
+/// C01: the vector helpers return exactly the bytes the core emitted, in order, and the
+/// "Bug!" panic is unreachable for any core behaviour within K1-K5.
+#[kani::proof]
+#[kani::unwind(14)]
+#[kani::stub(dcore::compress, compress_contract_writing)]
+fn w_compress_to_vec() {
+    unsafe {
+        K_CALLS = 0;
+        K_FINISH_SEEN = false;
+        KG_N = 0;
+    }
+    let data: [u8; 3] = kani::any();
+    let n: usize = kani::any();
+    kani::assume(n <= 3);
+    let level: u8 = kani::any();
+    let zlib: bool = kani::any();
+    let v = if zlib { compress_to_vec_zlib(&data[..n], level) } else { compress_to_vec(&data[..n], level) };
+    assert!(v.len() == unsafe { KG_N });
+    let mut i = 0;
+    while i < v.len() {
+        assert!(v[i] == unsafe { KG[i] });
+        i += 1;
+    }
+    kani::cover!(v.len() > 8);
+    kani::cover!(unsafe { K_CALLS } > 2);
+    core::mem::forget(v);
+}
